@@ -2,9 +2,10 @@
 // the repo's module with `go build -overlay` as package github.com/pgavlin/dawn/cmd/verif_diff; not part of /repo.
 //
 // Output, one record per line, tab separated:
-//   C <stream> <driver input> <Go's canonical answer>     correspondence pair (tie 2)
-//   V <json>                                             the property's own predicate failed on the implementation
-//   S <json>                                             statistics of this run
+//
+//	C <stream> <driver input> <Go's canonical answer>     correspondence pair (tie 2)
+//	V <json>                                             the property's own predicate failed on the implementation
+//	S <json>                                             statistics of this run
 //
 // Value syntax (shared with lean/Driver/Diff.lean): s<hex> string, b<hex> bytes (s-, b- empty), t(v,…) tuple,
 // l(v,…) list, d(k:v,…) dict in insertion order, n None, T/F booleans, i<decimal> int.
@@ -37,7 +38,7 @@ func (r *rng) next() uint64 {
 	z = (z ^ (z >> 27)) * 0x94D049BB133111EB
 	return z ^ (z >> 31)
 }
-func (r *rng) below(n int) int    { return int(r.next() % uint64(n)) }
+func (r *rng) below(n int) int     { return int(r.next() % uint64(n)) }
 func (r *rng) chance(pct int) bool { return r.below(100) < pct }
 
 var (
@@ -107,7 +108,9 @@ type parser struct {
 	i int
 }
 
-func (p *parser) fail(msg string) { panic(fmt.Sprintf("bad value syntax at %d in %q: %s", p.i, p.s, msg)) }
+func (p *parser) fail(msg string) {
+	panic(fmt.Sprintf("bad value syntax at %d in %q: %s", p.i, p.s, msg))
+}
 
 func (p *parser) hexRun() string {
 	if p.i < len(p.s) && p.s[p.i] == '-' {
